@@ -4,6 +4,7 @@ pub mod checks;
 pub mod common;
 pub mod drive;
 pub mod explore;
+pub mod fam_async;
 pub mod fam_atomic;
 pub mod fam_lock;
 pub mod fam_mpsc;
